@@ -278,8 +278,13 @@ pub fn install_panic_capture() {
             .location()
             .map(|l| format!("{}:{}", l.file(), l.line()))
             .unwrap_or_default();
+        let bt = if std::env::var("VERIF_BACKTRACE").is_ok() {
+            format!("\n{}", std::backtrace::Backtrace::force_capture())
+        } else {
+            String::new()
+        };
         if let Ok(mut g) = LAST_PANIC.lock() {
-            *g = Some(format!("{msg} @ {loc}"));
+            *g = Some(format!("{msg} @ {loc}{bt}"));
         }
     }));
 }
